@@ -67,12 +67,13 @@ def kaStep (d : KDrv) (toks : List String) : Option (KDrv × String) :=
     let c : Cfg := { life := natOf (kvK rest "life"), permT := natOf (kvK rest "permT"), chanT := natOf (kvK rest "chanT"),
                      permP := natOf (kvK rest "permP"), bindAge := natOf (kvK rest "bindAge"), bindP := natOf (kvK rest "bindP"),
                      peers := natOf (kvK rest "peers"), lossRf := parsePats (kvK rest "rf"), lossCp := parsePats (kvK rest "cp"),
-                     lossCb := parsePats (kvK rest "cb") }
+                     lossCb := parsePats (kvK rest "cb"), lossRf0 := parsePats (kvK rest "rf0") }
     some (⟨Turn.KeepAlive.init c, false⟩, "ok compat=" ++ (if decide (Compatible c) then "1" else "0"))
   | ["kadv", dt] => run (.adv (natOf dt))
   | ["kwr", p] => run (.wr (natOf p))
   | ["kpw", p] => run (.pw (natOf p))
   | ["kclose"] => run .close
+  | ["kcount"] => run .count
   | _ => none
 
 end Drv
